@@ -30,6 +30,19 @@ SWAPS = [
     ("and_then-skip", r"\.filter\(", ".filter(|_| true).map(|x| x).filter("),
 ]
 SWAPS = [s for s in SWAPS if s[0] != "and_then-skip"]
+# third batch (ids P....): a type-correct but wrong value
+SWAPS3 = [
+    ("flag-te2ex", r"\bto_execute\b", "executed"), ("flag-ex2te", r"\bexecuted\b", "to_execute"),
+    ("io-in2out", r"\b(target_)?input\b", r"\1output"), ("io-out2in", r"\b(target_)?output\b", r"\1input"),
+    ("res-completed2skipped", r"IncrementalRunResult::Completed\b", "IncrementalRunResult::Skipped"), ("res-skipped2completed", r"IncrementalRunResult::Skipped\b", "IncrementalRunResult::Completed"),
+    ("one-zero", r"== 1\b", "== 0"), ("one-two", r"== 1\b", "== 2"),
+    ("swap-args", r"\((&?[a-z_][\w\.]*), (&?[a-z_][\w\.]*)\)", r"(\2, \1)"),
+    ("insert-remove", r"\.insert\(", ".remove(&"), ("remove-insert", r"\.remove\(&", ".insert("),
+    ("files-cmds", r"\.files\b", ".cmds"), ("unwrap_or-true", r"unwrap_or\(false\)", "unwrap_or(true)"),
+    ("is_file-is_dir", r"\.is_file\(\)", ".is_dir()"), ("is_dir-is_file", r"\.is_dir\(\)", ".is_file()"),
+    ("starts-ends", r"\.starts_with\(", ".ends_with("), ("ends-starts", r"\.ends_with\(", ".starts_with("),
+    ("actual-flip", r"actual: true", "actual: false"), ("actual-flip2", r"actual: false", "actual: true"),
+]
 
 
 def source_files():
@@ -68,9 +81,9 @@ def gen():
         for i, l in code_lines(text):
             masked = strip_strings(l)
             code = masked.split("//")[0]
-            for (op, pat, rep) in SWAPS:
+            for (op, pat, rep) in SWAPS + SWAPS3:
                 for k, m in enumerate(re.finditer(pat, code)):
-                    new = l[:m.start()] + m.expand(rep) + l[m.end():] if "\\1" in rep else l[:m.start()] + rep + l[m.end():]
+                    new = l[:m.start()] + m.expand(rep) + l[m.end():] if "\\" in rep else l[:m.start()] + rep + l[m.end():]
                     if new != l:
                         muts.append({"file": f, "line": i + 1, "op": op, "k": k, "old": l, "new": new})
             st = code.strip()
@@ -103,13 +116,17 @@ def gen():
             if re.match(r"^(return|continue|break)\b.*;$", st) and "return Err" not in st and st in ("return;", "continue;", "break;"):
                 muts.append({"file": f, "line": i + 1, "op": "del-jump", "k": 0, "old": l, "new": ""})
     NEW_OPS = ("drop-right", "drop-left", "if-true", "if-false", "swap-stmt")
-    olds = [m for m in muts if m["op"] not in NEW_OPS]
+    OPS3 = {x[0] for x in SWAPS3}
+    olds = [m for m in muts if m["op"] not in NEW_OPS and m["op"] not in OPS3]
     news = [m for m in muts if m["op"] in NEW_OPS]
+    third = [m for m in muts if m["op"] in OPS3]
     for n, m in enumerate(olds):
         m["id"] = "M%04d" % n
     for n, m in enumerate(news):
         m["id"] = "N%04d" % n
-    muts = olds + news
+    for n, m in enumerate(third):
+        m["id"] = "P%04d" % n
+    muts = olds + news + third
     with open(os.path.join(OUT, "mutants.jsonl"), "w") as fh:
         for m in muts:
             fh.write(json.dumps(m) + "\n")
